@@ -5,8 +5,10 @@ cd /repo && git diff --quiet || { echo "repo dirty"; exit 9; }
 pf=/verif/seeded/$m/patch.diff; [ -f /verif/seeded/$m/patch.rebased.diff ] && pf=/verif/seeded/$m/patch.rebased.diff
 if git apply --check $pf 2>/dev/null; then git apply $pf; elif git apply --3way $pf 2>/tmp/apply.err; then git reset -q; else echo "PATCH-DOES-NOT-APPLY $m"; tail -2 /tmp/apply.err; git reset -q --hard HEAD; exit 8; fi
 cd /verif
+rm -rf /tmp/evidence.bak.$$; cp -r evidence /tmp/evidence.bak.$$
 for p in "$@"; do
   out=$(python3-vt -m pyvc check $p 2>&1); rc=$?
   echo "== $m on $p: exit=$rc"; echo "$out" | grep -E "^(VIOLATION|UNDECIDED|CHECKER-FAULT|KNOWN)" | head -6
 done
+rm -rf /verif/evidence; mv /tmp/evidence.bak.$$ /verif/evidence
 cd /repo && git checkout -- . && git status --short | head -3
